@@ -140,7 +140,14 @@ func (en *Engine) newExec(fn *ssa.Function, fc *FuncContract) *Exec {
 		hn := "MF_" + name
 		e.sorts.heaps[hn] = fmt.Sprintf("(Array %s %s)", kv[0], kv[1])
 		e.modelFields[name] = hn
-		e.noFrame[hn] = true
+		if !en.CS.WorldFields[name] {
+			e.noFrame[hn] = true
+		}
+		for _, m := range fc.Modifies {
+			if m == hn || m == name {
+				e.noFrame[hn] = true
+			}
+		}
 	}
 	return e
 }
